@@ -553,7 +553,7 @@ def run(ctx: Ctx) -> None:
     if not ctx.quick and ctx.tier == "thorough":
         depth = 6
     shard_run(ctx, _exhaustive_shard, extra=(depth,))
-    shard_run(ctx, _random_shard, extra=(250 if ctx.quick else 6000,))
+    shard_run(ctx, _random_shard, extra=(1500 if ctx.quick else 20000,))
     ctx.note("alphabet", ALPHABET)
 
 
